@@ -62,9 +62,28 @@ def evaluate(case, out):
             continue
         for key, a in con.assertions.items():
             try:
-                if con.audit_type == "ONEAUDIT":
-                    a.assorter.set_tally_pool_means(cvr_list=cvrs, use_style=us)
-                a.set_margin_from_cvrs(audit, cvrs)
+                if len(cvrs) % 2 == 0:
+                    # a planning pass on a preliminary list (no phantoms yet, only the first cards), then the real one:
+                    # margins and pool means must be those of the final list
+                    prelim = [c for c in cvrs if not c.phantom][: max(1, len(cvrs) // 2)]
+                    if prelim:
+                        try:
+                            if con.audit_type == "ONEAUDIT":
+                                a.assorter.set_tally_pool_means(cvr_list=prelim, use_style=us)
+                            a.set_margin_from_cvrs(audit, prelim)
+                            feats.add("preliminary-pass-first")
+                        except Exception:  # noqa  (the preliminary list may not contain the contest at all)
+                            pass
+                if len(cvrs) % 4 == 0:
+                    # margin first, batch means afterwards: the margin of a CVR list does not depend on whether (stale)
+                    # batch means happen to be stored
+                    a.set_margin_from_cvrs(audit, cvrs)
+                    if con.audit_type == "ONEAUDIT":
+                        a.assorter.set_tally_pool_means(cvr_list=cvrs, use_style=us)
+                else:
+                    if con.audit_type == "ONEAUDIT":
+                        a.assorter.set_tally_pool_means(cvr_list=cvrs, use_style=us)
+                    a.set_margin_from_cvrs(audit, cvrs)
                 v = a.margin
                 u = a.assorter.upper_bound
                 means = a.assorter.tally_pool_means or {}
@@ -87,6 +106,8 @@ def evaluate(case, out):
                 out.lib_exception("overstatement", e)
                 return
             judged += 1
+            own_v = 2 * float(np.mean([a.assorter.assort(cvrs[i]) for i in pop])) - 1
+            out.expect(abs(v - own_v) <= 1e-9, "margin!=2*mean(assort(CVR))-1-over-the-cards-under-audit", lambda: (cid, key, v, own_v))
             lhs = float(np.mean(B)) - 0.5
             rhs = (2 * float(np.mean(A)) - 1) / (2 * (2 * u - v))
             out.expect(abs(lhs - rhs) <= 1e-9, "reduction-identity",
